@@ -6,6 +6,8 @@ base = json.load(open('/root/.vp/BASELINE.json'))
 fd, path = tempfile.mkstemp(suffix='.xml'); os.close(fd)
 env = dict(os.environ); env.pop('MYSQL_MIMIC_VERIF', None)
 cmd = base['cmd'].replace('<file>', path)
+if '--fast' in sys.argv:
+    cmd += ' -k "not sqlalchemy"'  # no stable_pass test is a sqlalchemy one; they all fail offline and are slow
 subprocess.run(cmd, shell=True, env=env, stdout=subprocess.DEVNULL, stderr=subprocess.DEVNULL)
 passed = set()
 for tc in ET.parse(path).getroot().iter('testcase'):
